@@ -309,7 +309,7 @@ def _replay_eq(case: dict) -> List[str]:
 PROPS["C19"] = {"theorems": ["C19_rename", "C19_congruence", "C19_same_verdict", "scalarStep_rn", "seqStep_rn",
                              "ntupleStep_rn", "mapStep_rn", "recordStep_rn", "unionStep_rn", "maybeStep_rn", "knrStep_rn",
                              "userStep_rn", "contPreds_rn", "runProcs_rn", "gate_tr", "gate_rej",
-                             "C19_src_reads_compared", "C19_src_classes", "C19_src_compares_something"],
+                             "C19_src_reads_compared", "C19_src_classes", "C19_src_compares_something", "C19_src_preds_compared", "C19_src_pred_classes"],
                 "modules": ["KodaModel.Properties.C19", "KodaModel.Properties.C19Src"],
                 "level_note": "C19_rename: for every validator tree (every kind, any depth, Lazy through the environment), mode, "
                               "fuel and input, renaming the identities of validator / predicate / processor objects renames "
